@@ -224,6 +224,12 @@ def exhaustive_tasks(thorough):
                 cfg = (n, nl, mi, tuple(nsw), pt, jac, a2d, mi)
                 tasks.append((cfg, [(m, 0, 0) for m in range(1 << (n * mi))]))
                 space.append(cfg)
+    if not thorough:
+        # a small 3-level sub-space (mid-level sweeps and transfers of it_down / it_up) also in the quick tier
+        for n, mi, mid, pt, a2d in itertools.product((2, 3), (1, 2), (1, 2), (None, 'fine_only', 'pfasst_burnin'), (False, True)):
+            cfg = (n, 3, mi, tuple(level_sweeps(3, 1, mid)), pt, True, a2d, mi)
+            tasks.append((cfg, [(m, 0, 0) for m in range(1 << (n * mi))]))
+            space.append(cfg)
     if thorough:
         for nl, pt, jac, a2d in [(2, 'pfasst_burnin', True, False)]:
             cfg = (4, nl, 4, tuple(level_sweeps(nl, 1)), pt, jac, a2d, 4)
@@ -413,7 +419,7 @@ def run(ck):
                         'x predictor types x mssdc_jac x all_to_done%s; all (converged, force_done, force_continue) tables for '
                         'num_procs<=2, maxiter=2%s'
                         % ((4, 3, 4, ' (16-bit tables (4 steps x 4 iterations) on 1 configuration, 3-level configurations up to 9-bit tables)', '') if thorough else
-                           (3, 2, 3, '', ' (num_procs=2: at most one force table non-zero)'))),
+                           (3, 2, 3, ' + 3 levels for num_procs<=3, maxiter<=2', ' (num_procs=2: at most one force table non-zero)'))),
         'runs': sum(len(t[1]) for t in ex_tasks + f_tasks)}
     ck.cov['distinct_decision_paths_read_by_impl'] = npaths
 
